@@ -136,7 +136,8 @@ def _r1(ctx):
                      text=norm_text(dbl[0]))
     else:
         ctx.violated(fa, dbl[0], "the look-ahead sequence for the flush decision is %s; it must be the pass-1 samples followed by what "
-                     "pass 2 processes (the same samples without the prepended zero)" % norm_text(dbl[0].value), text=norm_text(dbl[0]))
+                     "pass 2 processes (the same samples without the prepended zero)" % norm_text(dbl[0].value),
+                     text="look-ahead = A ++ " + norm_text(B).replace(seq, "A"))
 
 
 def _r2(ctx):
